@@ -36,6 +36,8 @@ type Case struct {
 	Args []string `json:"args"`
 	// Bind: special variables rebound by a let around the call: name, value descriptor, name, ...
 	Bind []string `json:"bind,omitempty"`
+	// Pkg: the call is evaluated with this package as the current one (in-package before, common-lisp-user after)
+	Pkg string `json:"pkg,omitempty"`
 }
 
 func (c Case) String() string {
@@ -46,14 +48,17 @@ func (c Case) String() string {
 	if len(c.Bind) > 0 {
 		m += " [let " + strings.Join(c.Bind, " ") + "]"
 	}
+	if c.Pkg != "" {
+		m += " [in-package " + c.Pkg + "]"
+	}
 	return "(" + c.Fn + " " + strings.Join(c.Args, " ") + ")" + m
 }
 
 func (c Case) key() string {
-	return c.Fn + "\x00" + c.Mode + "\x00" + strings.Join(c.Args, "\x00") + "\x01" + strings.Join(c.Bind, "\x00")
+	return c.Fn + "\x00" + c.Mode + "\x00" + strings.Join(c.Args, "\x00") + "\x01" + strings.Join(c.Bind, "\x00") + "\x01" + c.Pkg
 }
 
-func (c Case) call() Call { return Call{Fn: c.Fn, Mode: c.Mode, Args: c.Args, Bind: c.Bind} }
+func (c Case) call() Call { return Call{Fn: c.Fn, Mode: c.Mode, Args: c.Args, Bind: c.Bind, Pkg: c.Pkg} }
 
 // ---------------------------------------------------------------------------------------------
 // Results obtained in batches are handed to Run through this table; a case that is not in it (a
@@ -415,6 +420,7 @@ func TestC09(t *testing.T) {
 		"(bounds-grid) every function that documents a start/end/index/n/count/size/position/offset/radix parameter, called with arguments of the documented types: one sequence-like parameter varied over its value set (strings \"\" abc λ aλ 日本語 λλa, lists, vectors, bit-vector, octets) x the product of up to two bound parameters over -1 0 1 2 3 4 8 nil (so reversed, negative, beyond-the-end and between-character-count-and-byte-length bounds), exhaustive, non-trivial when a bound other than 0/nil is present; " +
 		"(bounds-grid also: every function without bound parameters but with two sequence-like required parameters x all pairs of their value sets, e.g. the bit-* functions x 20 bit-vectors of lengths 0 4 8 9 made by the reader, coerce, make-array adjustable and not); " +
 		"(printer-grid) exhaustive: 17 printer variables x 26 values (nil t small large negative wrong-typed) bound by let around 28 format calls and 8 printer functions on 30 objects; (printer) rapid: one or two such bindings around a generated format call or a printer function; " +
+		"(package-grid) exhaustive: 60 calls that end in a condition of every standard class (type-error, undefined-function, unbound-variable, division-by-zero, program-error, parse-error, end-of-file, package-error, file-error, class-not-found, unbound-slot, no-applicable-method, print-not-readable, simple-error, warning ..) or a value x 16 current packages (one that uses only common-lisp, one that uses nothing, every package slip defines): the condition must be made whatever the current package sees; " +
 		"(call-typed) rapid: any function with every documented parameter drawn from the value set of its documented type (1/10 from the pool instead), optional and keyword parameters given or not; " +
 		"(format) control strings over the directive alphabet incl. unbalanced and hostile ones (prefix parameters <= 10000, every ~{ with a repetition limit) x pool arguments, non-trivial with >= 1 directive that has a prefix parameter. " +
 		"Oracle: the outcome is a value, a partial read, or a condition of a registered class; it is a fault when the panic is a Go runtime error (nil dereference, index, slice bounds, type assertion, unhashable key, nil map, closed channel, makeslice, divide), a Go value that is not a Lisp object, an argument check of a library below slip, " +
@@ -441,6 +447,7 @@ func TestC09(t *testing.T) {
 	testCalls(t, fns)
 	testTyped(t, fns)
 	testPrinter(t)
+	testPackageGrid(t)
 	if part("format") {
 		testFormat(t)
 	}
